@@ -21,9 +21,12 @@ const (
 // Metrics holds all the metrics for the load balancer
 type Metrics struct {
 	// Request metrics (atomic counters)
-	TotalRequests      uint64 `json:"total_requests"`
-	SuccessfulRequests uint64 `json:"successful_requests"`
-	FailedRequests     uint64 `json:"failed_requests"`
+	// All fields accessed with 64-bit atomic operations come first: on 32-bit platforms only the start of an
+	// allocated struct is guaranteed to be 64-bit aligned, and an unaligned 64-bit atomic operation panics.
+	TotalRequests       uint64 `json:"total_requests"`
+	SuccessfulRequests  uint64 `json:"successful_requests"`
+	FailedRequests      uint64 `json:"failed_requests"`
+	RateLimitedRequests uint64 `json:"rate_limited_requests"` // rate limiting metrics
 
 	// Response time metrics (using exponential moving average to prevent overflow)
 	// Stored as uint64 bits of float64 for atomic operations
@@ -33,9 +36,6 @@ type Metrics struct {
 
 	// Backend metrics
 	BackendMetrics map[string]*BackendMetrics `json:"backend_metrics"`
-
-	// Rate limiting metrics
-	RateLimitedRequests uint64 `json:"rate_limited_requests"`
 
 	// Circuit breaker metrics
 	CircuitBreakerMetrics map[string]*CircuitBreakerMetrics `json:"circuit_breaker_metrics"`
